@@ -341,14 +341,26 @@ fn argument_separator(input: &[u8]) -> ParseResult<()> {
 
 /// Parses an argument value.
 fn argument(input: &[u8]) -> ParseResult<Value<'_>> {
-    characters(input)
-        .or_else(|_| decimal_numeric_program_data(input))
-        .or_else(|_| hexadecimal_numeric_program_data(input))
-        .or_else(|_| binary_numeric_program_data(input))
-        .or_else(|_| octal_numeric_program_data(input))
-        .or_else(|_| single_quoted_string_program_data(input))
-        .or_else(|_| double_quoted_string_program_data(input))
-        .or_else(|_| arbitrary_program_data(input))
+    // Try the next alternative only after a definite mismatch: when an alternative
+    // ran out of input, no other alternative can match and more data is required.
+    fn or<'a>(
+        result: ParseResult<'a, Value<'a>>, input: &'a [u8],
+        next: impl Fn(&'a [u8]) -> ParseResult<'a, Value<'a>>,
+    ) -> ParseResult<'a, Value<'a>> {
+        match result {
+            Err(ParseError::SoftError(_)) => next(input),
+            other => other,
+        }
+    }
+
+    let result = characters(input);
+    let result = or(result, input, decimal_numeric_program_data);
+    let result = or(result, input, hexadecimal_numeric_program_data);
+    let result = or(result, input, binary_numeric_program_data);
+    let result = or(result, input, octal_numeric_program_data);
+    let result = or(result, input, single_quoted_string_program_data);
+    let result = or(result, input, double_quoted_string_program_data);
+    or(result, input, arbitrary_program_data)
 }
 
 /// Parses multiple arguments separated by commas.
